@@ -156,10 +156,48 @@ def run(chk):
         for msg in oracle(b, b.meta["info"], s, out)[:1]:
             chk.failures.append(core.Failure(msg, "session", "matrix", l, raw[:2500], key="c04"))
         nt.append(l)
-        if len(chk.failures) > 10: break
-    chk.note_cases("session-torn", clines, nt, sample_n=1, dist=dist)
+        if chk.too_many(): break
+    # an update with more than 2048 fragments interrupted early (far more fragments missing than the pivot bitmap has bits); the
+    # model needs far too long at this size: oracle only
+    bigs = []
+    for _ in range(1 if chk.quick() else 6):
+        slot = session.DRO + 4096
+        b = session.Scn(4, slot, 256)
+        n = rnd.choice([2049, rnd.randint(2050, 4000)])
+        img = ts004.make_image(rnd, n, 1)
+        st = b.add("start 1 %d" % n)
+        for i in range(1, rnd.randint(3, 40)):
+            b.add(session.seg_op(img, n, 1, i, False))
+        b.add("drop")
+        b.meta = {"ups": [(st, 1, n, img)]}
+        bigs.append(b)
+    blines, bimpl, brefouts = session.run(chk, bigs, stream="session-torn-bigcount-ref", with_model=False)
+    bcases = []
+    for b, ro in zip(bigs, brefouts):
+        if len(ro) != len(b.ops):
+            continue
+        b.meta["info"] = {}
+        idxs, total = crash.interesting_indices(b, ro, rnd, 12 if chk.quick() else 40)
+        if total not in idxs: idxs.append(total)
+        pops = post_ops(b)
+        for k in idxs:
+            s = session.Scn(b.ns, b.slot, b.blk)
+            s.add("crash %d" % k)
+            for o in b.ops: s.add(o)
+            s.meta = {"base": b, "k": k, "torn": None, "post_at": len(s.ops), "post_names": pops}
+            for o in pops: s.add(o)
+            bcases.append(s)
+    bclines, bcimpl, bcouts = session.run(chk, bcases, stream="session-torn-bigcount", with_model=False)
+    for s, l, raw, out in zip(bcases, bclines, bcimpl, bcouts):
+        if len(out) != len(s.ops):
+            chk.failures.append(core.Failure("harness produced no / truncated result", "session", "matrix", l[:3000], raw[-300:], key="crash")); break
+        for msg in oracle(s.meta["base"], {}, s, out)[:1]:
+            chk.failures.append(core.Failure("[%d fragments] %s" % (s.meta["base"].meta["ups"][0][2], msg), "session", "matrix", l[:3000], raw[:2500], key="c04"))
+        nt.append(l[:300])
+    dist["bigcount(oracle only)"] = len(bcases)
+    chk.note_cases("session-torn", clines + [l[:300] for l in bclines], nt, sample_n=1, dist=dist)
     return chk.finish(level="proof",
         rule="session-torn: base histories (confirmed image; cancelled / rejected / recovered update; a completed update with copy marked; an abandoned later update incl. recover and cancel, or a fully delivered update whose image is corrupt and whose session object is lost before the final check) with power lost at every modifying operation "
              "(start, each handle_segment, final mark, recovery remediation, cancel, status marks; inside erase runs the first / second / last block; sampled above %d per history) and, for programs, torn outcomes: nothing, byte prefixes, and a partially programmed byte with sampled keep-masks "
-             "(thorough: dense masks for the 4-byte words); then reboot and try_recover, bl_boot_status, fallback_firmware, validation and dump of every slot, the final check of the recovered session followed by the same inspection, start_update; non-trivial = every case; distinct by case text" % limit,
+             "(thorough: dense masks for the 4-byte words); plus an update with 2049..4000 fragments interrupted after a few of them (oracle only); then reboot and try_recover, bl_boot_status, fallback_firmware, validation and dump of every slot, the final check of the recovered session followed by the same inspection, start_update; non-trivial = every case; distinct by case text" % limit,
         trusted=core.TRUSTED_COMMON + ["C04: torn-write device model of SimNor / Mgr.torn_prog: a prefix of the bytes fully programmed, one byte with any subset of its bits programmed, the rest untouched; erase atomic per block"])
